@@ -306,9 +306,12 @@ impl Buffer {
         for i in start_line..=end_line {
             #[cfg(icy_engine_verif)]
             crate::verif::tick(1);
-            let line = &mut layer.lines[i as usize];
+            let Some(line) = layer.lines.get_mut(i as usize) else {
+                continue;
+            };
             if line.chars.len() > start_column {
-                line.chars.insert(end_column as usize, AttributedChar::default());
+                let end_column = (end_column as usize).min(line.chars.len());
+                line.chars.insert(end_column, AttributedChar::default());
                 line.chars.remove(start_column);
             }
         }
@@ -325,10 +328,14 @@ impl Buffer {
         for i in start_line..=end_line {
             #[cfg(icy_engine_verif)]
             crate::verif::tick(1);
-            let line = &mut layer.lines[i as usize];
+            let Some(line) = layer.lines.get_mut(i as usize) else {
+                continue;
+            };
             if line.chars.len() > start_column {
                 line.chars.insert(start_column, AttributedChar::default());
-                line.chars.remove(end_column + 1);
+                if end_column + 1 < line.chars.len() {
+                    line.chars.remove(end_column + 1);
+                }
             }
         }
     }
